@@ -2179,4 +2179,392 @@ theorem dsimRead_err (d : List Nat) (e : VErr) (h : dsimRead d = .err e) : e = .
       injection h with h
       exact Or.inr ⟨fmt, h.symm⟩
 
+/-! ## `read_dense_deltas`, `read_sparse_deltas` -/
+
+/-- the coordinate arithmetic of the instantiation cannot trap -/
+def ArithTotal (k : DKind) (scalar : Int) : Prop :=
+  (∀ v, (deltaTerm k scalar v).isSome) ∧ (∀ a b, (k.addAssign a b).isSome)
+
+theorem addAt_some (k : DKind) (scalar : Int) (ha : ArithTotal k scalar) (buf : List Int) (ix : Nat) (t : Int)
+    (h : ix < buf.length) : ∃ b', addAt k buf ix t = some b' ∧ b'.length = buf.length := by
+  unfold addAt
+  rw [List.getElem?_eq_getElem h]
+  simp only []
+  obtain ⟨r, hr⟩ := Option.isSome_iff_exists.mp (ha.2 buf[ix] t)
+  rw [hr]
+  exact ⟨_, rfl, by simp⟩
+
+theorem addAt_length (k : DKind) (buf : List Int) (ix : Nat) (t : Int) (b' : List Int)
+    (h : addAt k buf ix t = some b') : b'.length = buf.length := by
+  unfold addAt at h
+  split at h
+  · cases h
+  · cases hk : k.addAssign _ t with
+    | none => rw [hk] at h; cases h
+    | some r => rw [hk] at h; simp at h; rw [← h]; simp
+
+theorem denseApply_length (k : DKind) (scalar : Int) : ∀ (vals : List Int) (ix : Nat) (buf b' : List Int),
+    denseApply k scalar vals ix buf = some b' → b'.length = buf.length := by
+  intro vals
+  induction vals with
+  | nil => intro ix buf b' h; simp [denseApply] at h; rw [← h]
+  | cons v r ih =>
+    intro ix buf b' h
+    unfold denseApply at h
+    cases ht : deltaTerm k scalar v with
+    | none => rw [ht] at h; cases h
+    | some t =>
+      rw [ht] at h
+      simp only [] at h
+      cases hb1 : addAt k buf ix t with
+      | none => rw [hb1] at h; cases h
+      | some b1 =>
+        rw [hb1] at h
+        simp only [] at h
+        rw [ih _ _ _ h, addAt_length k buf ix t b1 hb1]
+
+theorem denseApply_some (k : DKind) (scalar : Int) (ha : ArithTotal k scalar) :
+    ∀ (vals : List Int) (ix : Nat) (buf : List Int), ix + vals.length ≤ buf.length →
+      ∃ b', denseApply k scalar vals ix buf = some b' := by
+  intro vals
+  induction vals with
+  | nil => intro ix buf _; exact ⟨buf, rfl⟩
+  | cons v r ih =>
+    intro ix buf h
+    simp only [List.length_cons] at h
+    unfold denseApply
+    obtain ⟨t, ht⟩ := Option.isSome_iff_exists.mp (ha.1 v)
+    rw [ht]
+    simp only []
+    obtain ⟨b1, hb1, hl1⟩ := addAt_some k scalar ha buf ix t (by omega)
+    rw [hb1]
+    simp only []
+    exact ih (ix + 1) b1 (by omega)
+
+@[simp] theorem runValues_length (d : List Nat) (vsize pos n : Nat) : (runValues d vsize pos n).length = n := by
+  simp [runValues]
+
+/-- `read_dense_deltas`: terminates within `count − cur` trips, keeps the buffer length, and panics only
+through the coordinate arithmetic -/
+theorem readDense_facts (k : DKind) (scalar : Int) (d : List Nat) :
+    ∀ (fuel pos cur : Nat) (buf : List Int), buf.length - cur < fuel → buf.length ≤ 4294967296 →
+      (ArithTotal k scalar → readDense k scalar d fuel pos cur buf ≠ .trap) ∧
+      (∀ e, readDense k scalar d fuel pos cur buf = .err e → e = .oob) ∧
+      ∀ b' p', readDense k scalar d fuel pos cur buf = .ok (b', p') → b'.length = buf.length := by
+  intro fuel
+  induction fuel with
+  | zero => intro pos cur buf h; omega
+  | succ f ih =>
+    intro pos cur buf hf hbl
+    unfold readDense
+    by_cases hc : cur < buf.length
+    · rw [if_pos hc]
+      cases hu : u8At d pos with
+      | none => exact ⟨fun _ => by simp, fun e he => by injection he with he; exact he.symm, by simp⟩
+      | some control =>
+        simp only []
+        rw [uadd_some _ _ (by unfold MAXU; omega)]
+        simp only []
+        by_cases he : cur + (control % 64 + 1) ≤ buf.length
+        · rw [if_pos he]
+          by_cases hz : runTypeSize control = 0
+          · rw [if_pos hz]
+            exact ih (pos + 1) _ buf (by omega) hbl
+          · rw [if_neg hz]
+            cases hra : (Cur.readArray d ⟨pos + 1⟩ (control % 64 + 1) (runTypeSize control)).1 with
+            | error e' => exact ⟨fun _ => by simp, fun e he' => by injection he' with he'; exact he'.symm, by simp⟩
+            | ok n =>
+              simp only []
+              cases hda : denseApply k scalar (runValues d (runTypeSize control) (pos + 1) (control % 64 + 1)) cur buf with
+              | none =>
+                refine ⟨fun ha => ?_, by simp, by simp⟩
+                obtain ⟨b', hb'⟩ := denseApply_some k scalar ha (runValues d (runTypeSize control) (pos + 1) (control % 64 + 1)) cur buf (by simp; omega)
+                rw [hb'] at hda; cases hda
+              | some b1 =>
+                simp only []
+                have hl1 := denseApply_length k scalar _ _ _ _ hda
+                obtain ⟨i1, i2, i3⟩ := ih (pos + 1 + (control % 64 + 1) * runTypeSize control) (cur + (control % 64 + 1)) b1
+                  (by omega) (by omega)
+                exact ⟨i1, i2, fun b' p' hb' => by rw [i3 b' p' hb', hl1]⟩
+        · rw [if_neg he]
+          exact ⟨fun _ => by simp, fun e he' => by injection he' with he'; exact he'.symm, by simp⟩
+    · rw [if_neg hc]
+      refine ⟨fun _ => by simp, by simp, ?_⟩
+      intro b' p' h
+      injection h with h
+      injection h with h1 h2
+      rw [← h1]
+
+theorem accumulateDense_facts (k : DKind) (scalar : Int) (dd : List Nat) (xs ys : List Int)
+    (hx : xs.length ≤ 4294967296) (hy : ys.length ≤ 4294967296) :
+    (ArithTotal k scalar → accumulateDense k scalar dd xs ys ≠ .trap) ∧
+    (∀ e, accumulateDense k scalar dd xs ys = .err e → e = .oob) ∧
+    ∀ xs' ys', accumulateDense k scalar dd xs ys = .ok (xs', ys') → xs'.length = xs.length ∧ ys'.length = ys.length := by
+  unfold accumulateDense
+  obtain ⟨a1, a2, a3⟩ := readDense_facts k scalar dd (xs.length + 1) 0 0 xs (by omega) hx
+  cases hr : readDense k scalar dd (xs.length + 1) 0 0 xs with
+  | trap => exact ⟨fun ha => absurd hr (a1 ha), by simp, by simp⟩
+  | err e => exact ⟨fun _ => by simp, fun e' he' => by injection he' with he'; subst he'; exact a2 e hr, by simp⟩
+  | ok r =>
+    obtain ⟨xs1, pos⟩ := r
+    simp only []
+    obtain ⟨b1, b2, b3⟩ := readDense_facts k scalar dd (ys.length + 1) pos 0 ys (by omega) hy
+    cases hr2 : readDense k scalar dd (ys.length + 1) pos 0 ys with
+    | trap => exact ⟨fun ha => absurd hr2 (b1 ha), by simp, by simp⟩
+    | err e => exact ⟨fun _ => by simp, fun e' he' => by injection he' with he'; subst he'; exact b2 e hr2, by simp⟩
+    | ok r2 =>
+      obtain ⟨ys1, pos2⟩ := r2
+      refine ⟨fun _ => by simp, by simp, ?_⟩
+      intro xs' ys' h
+      injection h with h
+      injection h with h1 h2
+      subst h1; subst h2
+      exact ⟨a3 _ _ hr, b3 _ _ hr2⟩
+
+theorem sparseAt_facts (k : DKind) (scalar : Int) (limit : Nat) (mark : Bool) (ix : Nat) (v : Int)
+    (buf : List Int) (flags : List Bool) (hl : limit ≤ buf.length) :
+    (ArithTotal k scalar → ∃ r, sparseAt k scalar limit mark ix v buf flags = some r) ∧
+    ∀ b' f', sparseAt k scalar limit mark ix v buf flags = some (b', f') →
+      b'.length = buf.length ∧ f'.length = flags.length := by
+  unfold sparseAt
+  by_cases hix : ix < limit
+  · rw [if_pos hix]
+    constructor
+    · intro ha
+      obtain ⟨t, ht⟩ := Option.isSome_iff_exists.mp (ha.1 v)
+      rw [ht]
+      simp only []
+      obtain ⟨b1, hb1, _⟩ := addAt_some k scalar ha buf ix t (by omega)
+      rw [hb1]
+      exact ⟨_, rfl⟩
+    · intro b' f' h
+      cases ht : deltaTerm k scalar v with
+      | none => rw [ht] at h; cases h
+      | some t =>
+        rw [ht] at h
+        simp only [] at h
+        cases hb1 : addAt k buf ix t with
+        | none => rw [hb1] at h; cases h
+        | some b1 =>
+          rw [hb1] at h
+          simp only [Option.some.injEq, Prod.mk.injEq] at h
+          obtain ⟨h1, h2⟩ := h
+          rw [← h1, ← h2]
+          refine ⟨addAt_length k buf ix t b1 hb1, ?_⟩
+          split <;> simp
+  · rw [if_neg hix]
+    refine ⟨fun _ => ⟨_, rfl⟩, ?_⟩
+    intro b' f' h
+    simp only [Option.some.injEq, Prod.mk.injEq] at h
+    rw [← h.1, ← h.2]
+    exact ⟨rfl, rfl⟩
+
+theorem sparseZip_facts (pd : List Nat) (k : DKind) (scalar : Int) (limit : Nat) (mark : Bool) :
+    ∀ (vals : List Int) (s : PtSt) (buf : List Int) (flags : List Bool), limit ≤ buf.length →
+      (ArithTotal k scalar → ∃ r, sparseZip pd k scalar limit mark vals s buf flags = some r) ∧
+      ∀ b' f' s', sparseZip pd k scalar limit mark vals s buf flags = some (b', f', s') →
+        b'.length = buf.length ∧ f'.length = flags.length := by
+  intro vals
+  induction vals with
+  | nil =>
+    intro s buf flags _
+    refine ⟨fun _ => ⟨_, rfl⟩, ?_⟩
+    intro b' f' s' h
+    simp only [sparseZip, Option.some.injEq, Prod.mk.injEq] at h
+    rw [← h.1, ← h.2.1]; exact ⟨rfl, rfl⟩
+  | cons v r ih =>
+    intro s buf flags hl
+    unfold sparseZip
+    generalize ptNext pd s = pn
+    obtain ⟨o, s1⟩ := pn
+    cases o with
+    | yield ix =>
+      simp only []
+      obtain ⟨a1, a2⟩ := sparseAt_facts k scalar limit mark ix v buf flags hl
+      cases hsa : sparseAt k scalar limit mark ix v buf flags with
+      | none =>
+        refine ⟨fun ha => ?_, by simp⟩
+        obtain ⟨r', hr'⟩ := a1 ha
+        rw [hr'] at hsa; cases hsa
+      | some bf =>
+        obtain ⟨b1, f1⟩ := bf
+        simp only []
+        obtain ⟨l1, l2⟩ := a2 b1 f1 hsa
+        obtain ⟨i1, i2⟩ := ih s1 b1 f1 (by omega)
+        exact ⟨i1, fun b' f' s' h => by obtain ⟨x, y⟩ := i2 b' f' s' h; exact ⟨by omega, by omega⟩⟩
+    | cont => simp only []; exact ⟨fun _ => ⟨_, rfl⟩, fun b' f' s' h => by
+        simp only [Option.some.injEq, Prod.mk.injEq] at h; rw [← h.1, ← h.2.1]; exact ⟨rfl, rfl⟩⟩
+    | done => simp only []; exact ⟨fun _ => ⟨_, rfl⟩, fun b' f' s' h => by
+        simp only [Option.some.injEq, Prod.mk.injEq] at h; rw [← h.1, ← h.2.1]; exact ⟨rfl, rfl⟩⟩
+    | trap => simp only []; exact ⟨fun _ => ⟨_, rfl⟩, fun b' f' s' h => by
+        simp only [Option.some.injEq, Prod.mk.injEq] at h; rw [← h.1, ← h.2.1]; exact ⟨rfl, rfl⟩⟩
+
+theorem sparseZero_facts (pd : List Nat) (k : DKind) (scalar : Int) (limit : Nat) (mark : Bool) :
+    ∀ (n : Nat) (s : PtSt) (buf : List Int) (flags : List Bool), limit ≤ buf.length →
+      (ArithTotal k scalar → sparseZero pd k scalar limit mark n s buf flags ≠ .trap) ∧
+      (∀ e, sparseZero pd k scalar limit mark n s buf flags = .err e → e = .oob) ∧
+      ∀ b' f' s', sparseZero pd k scalar limit mark n s buf flags = .ok (b', f', s') →
+        b'.length = buf.length ∧ f'.length = flags.length := by
+  intro n
+  induction n with
+  | zero =>
+    intro s buf flags _
+    refine ⟨fun _ => by simp [sparseZero], by simp [sparseZero], ?_⟩
+    intro b' f' s' h
+    simp only [sparseZero, R.ok.injEq, Prod.mk.injEq] at h
+    rw [← h.1, ← h.2.1]; exact ⟨rfl, rfl⟩
+  | succ n ih =>
+    intro s buf flags hl
+    unfold sparseZero
+    generalize ptNext pd s = pn
+    obtain ⟨o, s1⟩ := pn
+    cases o with
+    | yield ix =>
+      simp only []
+      obtain ⟨a1, a2⟩ := sparseAt_facts k scalar limit mark ix 0 buf flags hl
+      cases hsa : sparseAt k scalar limit mark ix 0 buf flags with
+      | none =>
+        refine ⟨fun ha => ?_, by simp, by simp⟩
+        obtain ⟨r', hr'⟩ := a1 ha
+        rw [hr'] at hsa; cases hsa
+      | some bf =>
+        obtain ⟨b1, f1⟩ := bf
+        simp only []
+        obtain ⟨l1, l2⟩ := a2 b1 f1 hsa
+        obtain ⟨i1, i2, i3⟩ := ih s1 b1 f1 (by omega)
+        exact ⟨i1, i2, fun b' f' s' h => by obtain ⟨x, y⟩ := i3 b' f' s' h; exact ⟨by omega, by omega⟩⟩
+    | cont => simp only []; exact ⟨fun _ => by simp, fun e he => by injection he with he; exact he.symm, by simp⟩
+    | done => simp only []; exact ⟨fun _ => by simp, fun e he => by injection he with he; exact he.symm, by simp⟩
+    | trap => simp only []; exact ⟨fun _ => by simp, fun e he => by injection he with he; exact he.symm, by simp⟩
+
+/-- `read_sparse_deltas`: terminates within `count − cur` trips, keeps the buffer lengths, and panics
+only through the coordinate arithmetic -/
+theorem readSparse_facts (pd dd : List Nat) (k : DKind) (scalar : Int) (limit : Nat) (mark : Bool) (count : Nat)
+    (hcount : count ≤ 65535) :
+    ∀ (fuel pos cur : Nat) (s : PtSt) (buf : List Int) (flags : List Bool), count - cur < fuel → cur ≤ count + 64 →
+      limit ≤ buf.length →
+      (ArithTotal k scalar → readSparse pd dd k scalar limit mark count fuel pos cur s buf flags ≠ .trap) ∧
+      (∀ e, readSparse pd dd k scalar limit mark count fuel pos cur s buf flags = .err e → e = .oob) ∧
+      ∀ b' f' p', readSparse pd dd k scalar limit mark count fuel pos cur s buf flags = .ok (b', f', p') →
+        b'.length = buf.length ∧ f'.length = flags.length := by
+  intro fuel
+  induction fuel with
+  | zero => intro pos cur s buf flags h; omega
+  | succ f ih =>
+    intro pos cur s buf flags hf hcur hl
+    unfold readSparse
+    by_cases hc : cur < count
+    · rw [if_pos hc]
+      cases hu : u8At dd pos with
+      | none => exact ⟨fun _ => by simp, fun e he => by injection he with he; exact he.symm, by simp⟩
+      | some control =>
+        simp only []
+        rw [uadd_some _ _ (by unfold MAXU; omega)]
+        simp only []
+        by_cases hz : runTypeSize control = 0
+        · rw [if_pos hz]
+          obtain ⟨z1, z2, z3⟩ := sparseZero_facts pd k scalar limit mark (control % 64 + 1) s buf flags hl
+          cases hsz : sparseZero pd k scalar limit mark (control % 64 + 1) s buf flags with
+          | trap => exact ⟨fun ha => absurd hsz (z1 ha), by simp, by simp⟩
+          | err e => exact ⟨fun _ => by simp, fun e' he' => by injection he' with he'; subst he'; exact z2 e hsz, by simp⟩
+          | ok r =>
+            obtain ⟨b1, f1, s1⟩ := r
+            simp only []
+            obtain ⟨l1, l2⟩ := z3 b1 f1 s1 hsz
+            obtain ⟨i1, i2, i3⟩ := ih (pos + 1) (cur + (control % 64 + 1)) s1 b1 f1 (by omega) (by omega) (by omega)
+            exact ⟨i1, i2, fun b' f' p' h => by obtain ⟨x, y⟩ := i3 b' f' p' h; exact ⟨by omega, by omega⟩⟩
+        · rw [if_neg hz]
+          cases hra : (Cur.readArray dd ⟨pos + 1⟩ (control % 64 + 1) (runTypeSize control)).1 with
+          | error e' => exact ⟨fun _ => by simp, fun e he' => by injection he' with he'; exact he'.symm, by simp⟩
+          | ok n =>
+            simp only []
+            obtain ⟨z1, z2⟩ := sparseZip_facts pd k scalar limit mark
+              (runValues dd (runTypeSize control) (pos + 1) (control % 64 + 1)) s buf flags hl
+            cases hsz : sparseZip pd k scalar limit mark (runValues dd (runTypeSize control) (pos + 1) (control % 64 + 1)) s buf flags with
+            | none =>
+              refine ⟨fun ha => ?_, by simp, by simp⟩
+              obtain ⟨r', hr'⟩ := z1 ha
+              rw [hr'] at hsz; cases hsz
+            | some r =>
+              obtain ⟨b1, f1, s1⟩ := r
+              simp only []
+              obtain ⟨l1, l2⟩ := z2 b1 f1 s1 hsz
+              obtain ⟨i1, i2, i3⟩ := ih (pos + 1 + (control % 64 + 1) * runTypeSize control) (cur + (control % 64 + 1)) s1 b1 f1
+                (by omega) (by omega) (by omega)
+              exact ⟨i1, i2, fun b' f' p' h => by obtain ⟨x, y⟩ := i3 b' f' p' h; exact ⟨by omega, by omega⟩⟩
+    · rw [if_neg hc]
+      refine ⟨fun _ => by simp, by simp, ?_⟩
+      intro b' f' p' h
+      simp only [R.ok.injEq, Prod.mk.injEq] at h
+      rw [← h.1, ← h.2.1]; exact ⟨rfl, rfl⟩
+
+theorem accumulateSparse_facts (k : DKind) (scalar : Int) (pd dd : List Nat) (xs ys : List Int) (flags : List Bool)
+    (hxy : xs.length = ys.length) :
+    (ArithTotal k scalar → accumulateSparse k scalar pd dd xs ys flags ≠ .trap) ∧
+    (∀ e, accumulateSparse k scalar pd dd xs ys flags = .err e → e = .oob) ∧
+    ∀ xs' ys' f', accumulateSparse k scalar pd dd xs ys flags = .ok (xs', ys', f') →
+      xs'.length = xs.length ∧ ys'.length = ys.length ∧ f'.length = flags.length := by
+  have hcount : pointCount pd ≤ 65535 := by have := C01Iter.count_le pd; unfold pointCount; omega
+  unfold accumulateSparse
+  simp only []
+  obtain ⟨a1, a2, a3⟩ := readSparse_facts pd dd k scalar (min xs.length flags.length) true (pointCount pd) hcount
+    (pointCount pd + 1) 0 0 (ptInit pd) xs flags (by omega) (by omega) (Nat.min_le_left _ _)
+  cases hr : readSparse pd dd k scalar (min xs.length flags.length) true (pointCount pd) (pointCount pd + 1) 0 0 (ptInit pd) xs flags with
+  | trap => exact ⟨fun ha => absurd hr (a1 ha), by simp, by simp⟩
+  | err e => exact ⟨fun _ => by simp, fun e' he' => by injection he' with he'; subst he'; exact a2 e hr, by simp⟩
+  | ok r =>
+    obtain ⟨xs1, f1, pos⟩ := r
+    simp only []
+    obtain ⟨lx, lf⟩ := a3 xs1 f1 pos hr
+    obtain ⟨b1, b2, b3⟩ := readSparse_facts pd dd k scalar ys.length false (pointCount pd) hcount
+      (pointCount pd + 1) pos 0 (ptInit pd) ys f1 (by omega) (by omega) (Nat.le_refl _)
+    cases hr2 : readSparse pd dd k scalar ys.length false (pointCount pd) (pointCount pd + 1) pos 0 (ptInit pd) ys f1 with
+    | trap => exact ⟨fun ha => absurd hr2 (b1 ha), by simp, by simp⟩
+    | err e => exact ⟨fun _ => by simp, fun e' he' => by injection he' with he'; subst he'; exact b2 e hr2, by simp⟩
+    | ok r2 =>
+      obtain ⟨ys1, f2, pos2⟩ := r2
+      refine ⟨fun _ => by simp, by simp, ?_⟩
+      intro xs' ys' f' h
+      simp only [R.ok.injEq, Prod.mk.injEq] at h
+      obtain ⟨h1, h2, h3⟩ := h
+      rw [← h1, ← h2, ← h3]
+      exact ⟨lx, (b3 ys1 f2 pos2 hr2).1, lf⟩
+
+/-- the wrapping instantiations with `scalar == Fixed::ONE` have total arithmetic -/
+theorem arithTotal_one (k : DKind) (hk : k ≠ .int) : ArithTotal k 65536 := by
+  constructor
+  · intro v
+    unfold deltaTerm
+    rw [if_pos rfl]
+    cases k with
+    | fixed => simp [DKind.fromI32, Checked.fxFromI32, Checked.IntTy.shl, Checked.i32]
+    | f26dot6 => simp [DKind.fromI32, Checked.f26FromI32, Checked.IntTy.shl, Checked.i32]
+    | int => exact absurd rfl hk
+  · intro a b
+    cases k with
+    | fixed => simp [DKind.addAssign]
+    | f26dot6 => simp [DKind.addAssign]
+    | int => exact absurd rfl hk
+
+/-- … and with any `i32` scalar, given C20's `fxMul_no_trap` -/
+theorem arithTotal_scaled (k : DKind) (hk : k ≠ .int) (scalar : Int) (hs : I32 scalar)
+    (hm : ∀ a b, I32 a → I32 b → (Checked.fxMul a b).isSome) : ArithTotal k scalar := by
+  constructor
+  · intro v
+    unfold deltaTerm
+    split
+    · rename_i h1; rw [h1] at *; exact (arithTotal_one k hk).1 v |> fun h => by
+        unfold deltaTerm at h; rw [if_pos rfl] at h; exact h
+    · obtain ⟨f, hf, hfi⟩ := fxFromI32_some v
+      rw [hf]
+      simp only []
+      obtain ⟨p, hp⟩ := Option.isSome_iff_exists.mp (hm f scalar hfi hs)
+      rw [hp]
+      simp only []
+      cases k with
+      | fixed => simp [DKind.fromFixed]
+      | f26dot6 => simp [DKind.fromFixed, Checked.fxToF26Dot6, Checked.IntTy.shr, Checked.i32]
+      | int => exact absurd rfl hk
+  · exact (arithTotal_one k hk).2
+
 end FontVerif.C01HandVar
